@@ -342,72 +342,18 @@ def run(model: Model, rep: Report, tier: str) -> None:
     else:
         rep.unknown("R14.2", construct(f, "blanket"), f"{len(paths)} return paths", loc(f))
 
-    # disorient: all nodes + both edge families, as effects on a fresh nx.Graph
-    f = method("disorient")
-    paths = return_paths(ev.run(f, {}, self_term=G))
-    okd, detail = False, "disorient() must build a fresh nx.Graph from all nodes and both edge families"
-    sample = {}
-    if len(paths) == 1:
-        from .common import nx_builder_parts
-        v = paths[0].value
-        parts = nx_builder_parts(v, sa)
-        sample = {"value": short(show(v), 300)}
-        if parts is None:
-            base = v
-            while base[0] in ("mut", "accum"):
-                base = base[1] if base[0] == "mut" else base[2]
-            if base[0] == "call" and str(base[1]).split(".")[-1] == "Graph" and base[2]:
-                detail += " (a graph constructed from an edge list alone loses nodes without edges)"
-        else:
-            base, nparts, eparts = parts
-            undirected = str(base[1]).split(".")[-1] == "Graph"
-            nodes_all = {el[1] for el, g in nparts if el[0] == "ALL" and not g}
-            edges_all = {el[1] for el, g in eparts if el[0] == "ALL" and not g}
-            other = [1 for el, g in nparts + eparts if not (el[0] == "ALL" and not g)]
-            if undirected and ("V", G) in nodes_all and ("Ed", G) in edges_all and ("Eu", G) in edges_all and not other and edges_all == {("Ed", G), ("Eu", G)}:
-                okd = True
-            elif not undirected:
-                detail += " (the flat graph must be undirected)"
-    if okd:
-        rep.proven("R14.2", construct(f, "flat-graph"), loc=loc(f), sample=sample)
-    else:
-        rep.refuted("R14.2", construct(f, "flat-graph"), detail + ": " + (short(show(paths[0].value)) if len(paths) == 1 else f"{len(paths)} paths"), loc(f))
-
-    # moralize: copy of both components + one bidirected edge per pair of co-parents of every node
-    f = method("moralize")
-    paths = return_paths(ev.run(f, {}, self_term=G))
-    node_ = var("%m")
-    pair_ = var("%p")
-    okm, detail = False, "moralize() must copy the graph and marry every pair of parents of every node"
-    if len(paths) == 1:
-        tr = graph_triple(paths[0].value, sa)
-        if tr is not None and not has_unknown(paths[0].value):
-            Nn, Dd, Uu = tr
-            wantU = ("union", ("Eu", G), ("comp", "list", pair_, ((pair_, ("bigunion", ("comp", "set", ("call", "combinations", (pred(node_), ("const", 2)), ()), ((node_, V, ()),))), ()),)))
-            def _unwrap_comb(t):
-                from ..terms import mapterm
-                def g(s_):
-                    if s_[0] == "call" and str(s_[1]).endswith("combinations") and len(s_[2]) == 2:
-                        x = s_[2][0]
-                        while x[0] == "call" and x[1] in ("list", "tuple", "sorted", "set", "frozenset") and len(x[2]) == 1:
-                            x = x[2][0]
-                        while x[0] == "setof":
-                            x = x[1]
-                        return ("call", "combinations", (x, s_[2][1]), ())
-                    return None
-                return mapterm(t, g)
-            a = sa.canon_top(("setof", _unwrap_comb(_drop_pair_guards(Uu))))
-            b = sa.canon_top(("setof", _unwrap_comb(wantU)))
-            c1 = compare(sa.member(n, Nn), inV)[0]
-            c2 = compare(sa.member(e, Dd), eD)[0]
-            okm = c1 and c2 and a == b
-            if not okm:
-                detail += f"; nodes ok={c1}, directed ok={c2}, bidirected normal form {short(show(a), 250)} vs definition {short(show(b), 250)}"
-            sample = {"bidirected": short(show(a), 300)}
-    if okm:
-        rep.proven("R14.2", construct(f, "moral-links"), loc=loc(f), sample=sample)
-    else:
-        rep.refuted("R14.2", construct(f, "moral-links"), detail, loc(f))
+    # disorient / moralize: by reference comparison (graphs compared by what they contain)
+    from .. import nxden as _nxden
+    from ..refcmp import load_reference as _lr, run_table as _rt
+    from .common import graph_rewrite, rewriter
+    if "yvref.c14" not in model.modules:
+        _lr(model, "yvref.c14", "c14_ref.py")
+    _GT = ("cls", NXMG)
+    _rt(model, rep, [
+        ("R14.2", f"{NXMG}.disorient", "flat_graph", {"self": _GT}, (), "flat-graph", "a fresh undirected graph with every node and both edge families", {"impl_self_type": _GT}),
+        ("R14.2", f"{NXMG}.moralize", "moralized", {"self": _GT}, (), "moral-links", "a copy of the graph with every two parents of every node married", {"impl_self_type": _GT}),
+    ], "yvref.c14", lambda m_, prims: (lambda: Evaluator(m_, primitives=set(prims), prim_methods={"add_node", "add_directed_edge", "add_undirected_edge"})),
+        SetAlg(rewriter(graph_rewrite)), construct=construct, loc=loc, post=_nxden.post)
 
     # copy
     f = method("copy")
@@ -440,7 +386,6 @@ def run(model: Model, rep: Report, tier: str) -> None:
     present = [row for row in table if model.has_func(row[1])]
     GT = ("cls", NXMG)
     from .. import nxden
-    from .common import graph_rewrite, rewriter
 
     run_table(model, rep, [
         ("R14.2", f"{NXMG}.pre", "prefix_before", {"self": GT, "nodes": VS, "topological_sort_order": ("union", (("list", ("cls", "y0.dsl.Variable")), "none"))},
@@ -450,7 +395,7 @@ def run(model: Model, rep: Report, tier: str) -> None:
          "every node relabelled; a directed edge is kept iff its target is not intervened, a bidirected edge iff neither endpoint is", {"impl_self_type": GT}),
         ("R14.4", f"{NXMG}.__eq__", "same_graph", {"self": GT, "other": GT}, (), "set-views",
          "same node set, directed edge set and bidirected edge set, compared through set-like views", {"impl_self_type": GT}),
-    ], "yvref.c14", _mk14, SetAlg(rewriter(graph_rewrite)), construct=construct, loc=loc, post=nxden.post)
+    ], "yvref.c14", _mk14, SetAlg(rewriter(graph_rewrite)), construct=construct, loc=loc, post=nxden.post_effects_only)
     if present:
         run_table(model, rep, present, "yvref.c14", _mk14, SetAlg(), construct=construct, loc=loc)
     else:
